@@ -43,7 +43,34 @@ def check_readcanary(tier):
     return 1 if rejects else 0
 
 
+def check_eviction(tier):
+    t0 = time.time()
+    sd = vlib.seed()
+    binary = vlib.go_build_test("comp")
+    work = vlib.scratch("evict")
+    cases = []
+    r = vlib.run_tlc("Eviction", 'INIT Init\nNEXT Next\nCONSTANTS\n Elems = {"a","b","c"}\n MaxOps = %d\nINVARIANTS Emit\nCHECK_DEADLOCK FALSE\n' % (5 if tier == "quick" else 7),
+                     raw_sink=lambda m, raw: cases.append(raw), timeout=3000)
+    vlib.require_model_ok(r, "Eviction")
+    cp = os.path.join(work, "cases.ndjson")
+    open(cp, "w").write("\n".join(cases) + "\n")
+    rc, out = vlib.run_harness(binary, "TestEviction", {"COMP_OUT": work, "COMP_CASES": cp, "VERIF_SEED": sd}, timeout=3000)
+    if rc != 0:
+        raise Broken("eviction harness failed:\n" + out[-3000:])
+    n_events, rejects, vstates = validate_obs("EvictionContractTrace", os.path.join(work, "eviction.ndjson"))
+    for i, rj in enumerate(rejects):
+        path = vlib.save_replay("extra_eviction", "s%d_%d" % (sd, i), {"observation.json": rj["event"]})
+        print("VIOLATION property=EXTRA-eviction replay=%s" % path)
+        log("  rejected observation: %s" % json.dumps(rj["event"])[:500])
+    cov = {"states": r.distinct, "transitions": r.generated, "traces_validated_against_impl": n_events, "trace_validator_states": vstates, "samples": []}
+    vlib.write_evidence("extra_eviction", tier, "model_checking", cov, time.time() - t0, len(rejects),
+                        ["not one of the listed properties: additional coverage of the specification (pkg/eviction LRU / FIFO / RR sets)"])
+    return 1 if rejects else 0
+
+
 def check(name, tier):
     if name == "readcanary":
         return check_readcanary(tier)
+    if name == "eviction":
+        return check_eviction(tier)
     raise Broken("unknown extra check " + name)
